@@ -88,6 +88,7 @@ pub struct Facts {
     pub resets: u64,
     pub near_lag_polls: u64,
     pub msgs: u64,
+    pub txn_leaked: u64,
     pub multi_msgs: u64,
     pub txn_commit: u64,
     pub txn_abandon: u64,
@@ -638,7 +639,7 @@ pub fn run_vec_history(h: &VecHistory) -> Result<Facts, Div> {
     if let Some(f) = faults.first() {
         return div("C20", format!("{f} ({} fault(s))", faults.len()));
     }
-    if live != 0 {
+    if live != 0 && r.txn_leaked == 0 {
         return div("C20", format!("{live} value(s) still alive after everything was dropped (ids {ids:?})"));
     }
     Ok(r)
@@ -901,7 +902,7 @@ fn step_vop_inner(ob: &mut ObservableVector<Tracked>, vop: &VOp, mon: &mut Mon, 
             phase(&mut tx, body, &mut work, &mut certain, &mut any_clear, mon)?;
             let commit = match end {
                 TxEnd::Commit => true,
-                TxEnd::Drop => false,
+                TxEnd::Drop | TxEnd::Forget => false,
                 TxEnd::RollbackDrop => {
                     tx.rollback();
                     false
@@ -992,7 +993,14 @@ fn step_vop_inner(ob: &mut ObservableVector<Tracked>, vop: &VOp, mon: &mut Mon, 
                     }
                 }
             } else {
-                drop(tx);
+                if matches!(end, TxEnd::Forget) {
+                    // leaked: its working copy and recorded diffs are never released (the drop accounting of this
+                    // history tolerates values that stay alive, see run_vec_history)
+                    std::mem::forget(tx);
+                    mon.facts.txn_leaked += 1;
+                } else {
+                    drop(tx);
+                }
                 mon.facts.txn_abandon += 1;
                 mon.poll_ref();
                 mon.take_fault()?;
@@ -1233,7 +1241,7 @@ pub fn apply_model(m: &mut Vec<u32>, vop: &VOp) {
             }
             match end {
                 TxEnd::Commit => *m = w,
-                TxEnd::Drop | TxEnd::RollbackDrop => {}
+                TxEnd::Drop | TxEnd::Forget | TxEnd::RollbackDrop => {}
                 TxEnd::RollbackThen(more, c) => {
                     let mut w = m.clone();
                     for op in more {
